@@ -677,6 +677,7 @@ def check(ctx):
     rule6(ctx, rep)
     shared.borrow(ctx, rep, [
         ('c03', lambda m: (m.rule4(ctx, rep), m.rule5(ctx, rep)), 'an entry that is never taken off the busy list, or a cloud job neither hired nor handed back, keeps the farm from ever reporting idle'),
+        ('c15', lambda m: m._rule4(ctx, rep), 'every node owns its work sets: a set shared by two nodes is emptied for both when one of them is released, and the other stays queued with nothing to do'),
         ('c12', lambda m: m.rule34(ctx, rep), 'a poller slot that is not released starves every later waiter on "queue empty"'),
     ])
     return rep
